@@ -33,7 +33,10 @@ import itertools as _it
 # every sequence over {mask, fill} up to length 3 (a cache filled under one policy is reused or must be rebuilt under the next),
 # plus mode switches in between
 ORDERS = [list(o) for k in (1, 2, 3) for o in _it.product(["mask", "fill"], repeat=k)] + [
-    ["mask", "train", "eval", "fill"], ["fill", "train", "eval", "fill"], ["fill", "ignore_clean", "fill"]]
+    ["mask", "train", "eval", "fill"], ["fill", "train", "eval", "fill"], ["fill", "ignore_clean", "fill"],
+    # a first prediction under the default policy 'ignore' (its output is NaN wherever a NaN target enters and is not judged) must not
+    # leave anything behind that a later prediction under 'mask' / 'fill' reuses
+    ["ignore", "mask"], ["ignore", "fill"], ["mask", "ignore", "fill"]]
 
 
 def cells(tier, seed):
@@ -154,6 +157,14 @@ def run_cell(cell, seed):
                 getattr(model, step)()
                 continue
             if step == "ignore_clean":
+                continue
+            if step == "ignore":
+                try:
+                    with settings_ctx(cell["ctx"]), S.observation_nan_policy("ignore"), torch.no_grad():
+                        model(Xs).covariance_matrix
+                    ops += 1
+                except Exception:
+                    pass
                 continue
             pol = step
             f2 = dict(feats, policy=pol, order="->".join(order))
